@@ -59,6 +59,17 @@ func (w *queueWorld) boot() {
 	jobsInf.ResetHandlers()
 	w.cfgQ = sim.NewDetQueue(w.clk)
 	w.indQ = sim.NewDetQueue(w.clk)
+	// the only instants this controller defers to are Jobs' startAfter times (see DetQueue.Candidates)
+	cands := func() []int64 {
+		var out []int64
+		for _, k := range w.api.Keys("jobs") {
+			if j, ok := w.api.Get("jobs", k).(*execution.Job); ok && j.Spec.StartPolicy != nil && j.Spec.StartPolicy.StartAfter != nil {
+				out = append(out, j.Spec.StartPolicy.StartAfter.UnixNano())
+			}
+		}
+		return out
+	}
+	w.cfgQ.Candidates, w.indQ.Candidates = cands, cands
 	store, _ := activejobstore.NewStore(w.ctx)
 	w.ctx.Stores().Register(store)
 	cctx, cancel := context.WithCancel(context.Background())
@@ -236,12 +247,83 @@ func (w *queueWorld) monitorCall(c sim.Call) {
 }
 
 func runQueue(c *Ctx) {
+	queueScenarios(c)
 	c.ForCases(func(i int, rng *rand.Rand) {
 		if i%6 == 5 {
 			queueInterleaveCase(c, rng)
 		} else {
 			queueCase(c, rng)
 		}
+	})
+}
+
+// queueScenarios: hand-written corpus cases, run first on every check.
+func queueScenarios(c *Ctx) {
+	// A Forbid Job over the limit stays queued until the job controller makes it terminal, so
+	// every pass rejects it again.  RejectJob with the identical annotation (same JobConfig name
+	// and active count in the message) is an Update that changes nothing: the API answers ok
+	// without a new resourceVersion and without a watch event (so the key is NOT re-queued).
+	// Once the active count differs the message differs and the Update is a real one again.
+	c.RunScenario("reject-twice-noop", func() {
+		w := newQueueWorld(c, c.Rng, []string{"a"})
+		pend := func() int { return len(w.api.Pending["jobs"]) }
+		w.addJC("a", 1)
+		w.flush()
+		w.addOwnedJob("j01", "a", 0) // Allow: starts
+		w.flush()
+		w.work("cfg")
+		w.flush()
+		w.work("cfg")
+		w.addOwnedJob("j02", "a", 1) // Forbid, one active Job, limit 1
+		w.flush()
+		w.work("cfg") // reject j02: a real update, one event
+		if pend() == 1 {
+			c.Count("q.scn.reject-applied")
+		}
+		w.flush()     // that event re-queues the key
+		w.work("cfg") // reject j02 again with the identical annotation: no-op, no event
+		if pend() == 0 {
+			c.Count("q.scn.reject-noop")
+		}
+		w.work("cfg") // nothing re-queued the key: idle
+		w.ctx.Sim().Jobs().Resync()
+		c.Emit("q.resync", w.digest())
+		w.flush()
+		// the answer of a no-op reject is lost: the pass fails, nothing changed, retry is a no-op too
+		w.faults = append(w.faults, sim.FaultAppliedErr)
+		for _, u := range w.uids {
+			w.outOfEnvelope[u] = true
+		}
+		c.Emit("q.fault "+sim.FaultAppliedErr, w.digest())
+		w.work("cfg")
+		w.clk.Step(2 * time.Second)
+		c.Emit("q.adv 2000000000", w.digest())
+		w.work("cfg")
+		// a blocking fault on a would-be no-op
+		w.ctx.Sim().Jobs().Resync()
+		c.Emit("q.resync", w.digest())
+		w.flush()
+		w.faults = append(w.faults, sim.FaultConflict)
+		c.Emit("q.fault "+sim.FaultConflict, w.digest())
+		w.work("cfg")
+		w.clk.Step(2 * time.Second)
+		c.Emit("q.adv 2000000000", w.digest())
+		w.work("cfg")
+		// a second Allow Job starts in the same pass as the no-op reject; the next pass sees two
+		// active Jobs, the message changes and the reject is a real update again
+		w.addOwnedJob("j03", "a", 0)
+		w.flush()
+		w.work("cfg")
+		w.flush()
+		w.work("cfg")
+		if pend() == 1 {
+			c.Count("q.scn.reject-new-message")
+		}
+		w.flush()
+		w.work("cfg")
+		w.work("cfg")
+		w.settle()
+		c.Nontrivial()
 	})
 }
 
